@@ -630,7 +630,16 @@ func Main(args []string) {
 		common.Fatalf("read: %v", err)
 	}
 	workers, _ := strconv.Atoi(common.Arg(args, "-workers", "12"))
-	results := common.Supervise("memacc-child", nil, lines, 120*time.Second, workers)
+	results := common.Supervise("memacc-child", nil, lines, 300*time.Second, workers)
+	// a program that did not answer in time under load is run again on its own with a long limit: only a program that
+	// does not end THEN is reported (every program is finite: loops run twice)
+	for i := range results {
+		if r := &results[i]; !r.OK && r.Key == "hang" {
+			again := common.Supervise("memacc-child", nil, []json.RawMessage{lines[i]}, 1500*time.Second, 1)
+			again[0].ID = r.ID
+			results[i] = again[0]
+		}
+	}
 	for i := range results {
 		r := &results[i]
 		if !r.OK && (r.Key == "crash" || r.Key == "hang") {
